@@ -87,6 +87,25 @@ pub fn c01_oracle(t: &TextTree, text: &str) -> Outcome {
         for f in codepoint_failures(text, &toks, &ctx) {
             o.fail(f);
         }
+        // the stateless front end (its own way of turning the result into a list)
+        {
+            use sudachi::analysis::stateless_tokenizer::StatelessTokenizer;
+            use sudachi::analysis::Tokenize;
+            o.evaluations += 1;
+            match catch(|| StatelessTokenizer::new(dict.clone()).tokenize(text, mode, false).map(|l| toks_of(&l)).map_err(|e| classify_err(&e))) {
+                Err(p) => o.fail(Failure::panic(&format!("stateless tokenizer mode {} {:?}", mode_name(mode), text), &p)),
+                Ok(Err(e)) => o.fail(Failure::new("stateless-tokenizer-differs", format!("[{}] {:?}: the stateless tokenizer rejects the text ({:?})", ctx, text, e))),
+                Ok(Ok(st)) => {
+                    for f in partition_failures(text, &st, 0, text.len(), &format!("{} stateless tokenizer", ctx)) {
+                        o.fail(f);
+                    }
+                    if st != toks {
+                        let k = st.iter().zip(toks.iter()).position(|(a, b)| a != b).unwrap_or(st.len().min(toks.len()));
+                        o.fail(Failure::new("stateless-tokenizer-differs", format!("[{}] {:?}: the stateless tokenizer gives {} tokens, the stateful one {}; first difference at {}: {:?} vs {:?}", ctx, text, st.len(), toks.len(), k, st.get(k), toks.get(k))));
+                    }
+                }
+            }
+        }
         if let Some(n) = &norm {
             if toks.is_empty() != n.is_empty() {
                 o.fail(Failure::new(
